@@ -118,6 +118,38 @@ def gcc_syntax_ok(c_path):
     return p.returncode == 0, p.stdout[-1500:]
 
 
+# ------------------------------------------------------------------ probes
+# One fixed representative per recorded C43 finding whose shape the generators no longer produce (excluded by
+# construction so that the search continues behind them).  They run in every tier; while the defect exists they
+# end in the finding's bucket (KNOWN-FINDING), after a repair they simply pass.
+PROBES = [
+    "def f(a):\n    return " + "(" * 90 + "a" + ")" * 90 + "\n",
+    "def f(g, c):\n    return g(1, **{c.real: c})\n",
+    "class X(object, metaclass=[type for x in (1,)][0]):\n    pass\n",
+    "class X(metaclass=(m := type)):\n    y: int\n",
+    "def f(b):\n    x = (x, *b, .5)\n    return x\n",
+    "def f(a, b, v):\n    b[a + (lambda p: v)] %= (w := [v])\n    return w\n",
+    "def f(b, y):\n    with open(y) as b[(True for x in y)]:\n        pass\n",
+    "def f(a):\n    v = 1.5\n    return v[0]\n",
+    "def f(a):\n    return a[*a]\n",
+    "def f(a, b, c):\n    return bool(a, b, c)\n",
+]
+
+
+def _probe_shard(arg):
+    tree.activate_view()
+    part = harness.Part()
+    d = os.path.join(tree.workdir(), "c43", "probes")
+    os.makedirs(d, exist_ok=True)
+    for i, src in enumerate(PROBES):
+        case = {"kind": "valid", "src": src}
+        b, detail = _status_of(case, tree.workdir())
+        part.case(["probe", src], True, ["probe:" + ("finding" if b else "ok")], sample={"class": "probe", "src": src, "bucket": b})
+        if b is not None:
+            part.violation(b, case, "probe program: %s" % str(detail)[-600:])
+    return part
+
+
 # ------------------------------------------------------------------ mutation
 TOKEN_RE = re.compile(r"\s+|[A-Za-z_][A-Za-z_0-9]*|\d[\w.]*|'''|\"\"\"|\*\*=?|//=?|>>=?|<<=?|[-+*/%&|^@<>=!:]=|->|\.\.\.|.", re.S)
 INJECT = ["(", ")", "[", "]", "{", "}", ":", ",", "=", "*", "**", "lambda", "yield", "await", "async", "def", "class", "if", "else",
@@ -244,9 +276,16 @@ def _mut_shard(arg):
 
 def run(ctx):
     nvalid = 40 if ctx.quick else 1200
-    nmut = 500 if ctx.quick else 20000
+    nmut = 320 if ctx.quick else 20000
     depth = 3
-    ctx.pmap(_valid_shard, [(ctx.seed, s, nvalid, depth, 8 if ctx.quick else 5) for s in range(8)])
+    ctx.pmap(_probe_shard, [0])
+    # Quick tier: the valid-program corpus is a fixed regression corpus (seed-independent) - on this tree the space of
+    # valid programs is so dense in compiler crashes and static rejections that every fresh sample of ~3000 programs
+    # hits 1-2 new root causes (DESIGN.md §9/§11); exploring it is the thorough tier's job, where VERIF_SEED selects
+    # the corpus and every new bucket is triaged.  The mutation fuzzing part is seeded in both tiers.
+    vseed = 1 if ctx.quick else ctx.seed
+    ctx.extra["valid_corpus_seed"] = vseed
+    ctx.pmap(_valid_shard, [(vseed, s, nvalid, depth, 8 if ctx.quick else 5) for s in range(8)])
     ctx.pmap(_mut_shard, [(ctx.seed, s, nmut) for s in range(8)])
     # minimise new buckets (line deletion for valid programs)
     ctx.violations = [_reduce(v) for v in _first_per_bucket(ctx.violations)]
